@@ -34,6 +34,10 @@ def gen_union(rnd, i):
             tag = rnd.choice([cname.lower(), f"t{k}"])
             # (the Literal may sit behind an annotation: a description, an inert marker)
             lit = rnd.choice([f"Literal[{tag!r}]", f"Literal[{tag!r}]", f"Annotated[Literal[{tag!r}], schema(description='tag')]", f"Annotated[Literal[{tag!r}], 'marker']"])
+            tag2 = None
+            if rnd.random() < 0.3:
+                # a class reachable through two tags: the value keeps the one it holds
+                tag2 = tag + "_b"; lit = f"Literal[{tag!r}, {tag2!r}]"
             if aliased: fl.append(f"    {key}_: {lit} = field(default={tag!r}, metadata=alias({key!r}))")
             else: fl.append(f"    {key}: {lit} = {tag!r}")
         extra_body, extra_ctor = {}, ""
@@ -48,9 +52,10 @@ def gen_union(rnd, i):
                 fl.append("    pat: Dict[str, int] = field(default_factory=dict, metadata=properties(pattern=r'^p_'))")
                 extra_body, extra_ctor = {"p_a": 1}, "dict(pat={'p_a': 1})"
         lines += fl + [""]
-        alts.append({"cls": cname, "tag": tag, "has_field": has_field, "aliased": aliased, "fields": fields, "aliases": al,
+        alts.append({"cls": cname, "tag": tag, "tag2": tag2 if has_field else None, "has_field": has_field, "aliased": aliased, "fields": fields, "aliases": al,
                      "extra_body": extra_body, "extra_ctor": extra_ctor})
     mode = rnd.choice(["default", "default", "explicit", "partial"])
+    if any(a["tag2"] for a in alts): mode = "default"
     mapping = None
     if mode == "explicit": mapping = {f"m{k}": a["cls"] for k, a in enumerate(alts)}
     elif mode == "partial": mapping = {"m0": alts[0]["cls"]}
@@ -149,6 +154,12 @@ def run_discr(seed, budget, want=("dispatch", "roundtrip", "tagged", "purity")):
                     if s[1] != exp: fail("serialized-union-value-is-not-the-alternative-plus-the-discriminator", u, value=v, got=s[1], expected=exp)
                     back = out(lambda: deserialize(U, s[1]))
                     if back != ("ok", v): fail("discriminated-value-does-not-round-trip", u, value=v, serialized=s[1], back=back)
+                    if a.get("tag2"):
+                        hist["two-tags-for-one-class"] += 1
+                        v2 = cls(**{fn: fv for fn, _, fv in a["fields"]}, **{(u["key"] + "_" if a["aliased"] else u["key"]): a["tag2"]})
+                        s2 = out(lambda: serialize(U, v2))
+                        if s2[0] != "ok" or s2[1].get(u["key"]) != a["tag2"]: fail("serialized-union-value-is-not-the-alternative-plus-the-discriminator", u, value=v2, got=s2, expected_tag=a["tag2"])
+                        elif out(lambda: deserialize(U, s2[1])) != ("ok", v2): fail("discriminated-value-does-not-round-trip", u, value=v2, serialized=s2[1])
                     # the same under a renaming aliaser: every key of the output - the discriminator included - is renamed,
                     # and the renamed output deserializes back under the same aliaser
                     al = lambda x: "al_" + x
